@@ -46,8 +46,26 @@ def within_tol(S, knobs, target_active):
     return all((not act) or res[i] < S.targets[i].tol for i, act in enumerate(target_active))
 
 
+def directed_calls(rng, spec):
+    """Call sequences in which knobs MOVE, are disabled / enabled afterwards and rows with other flags are
+    reloaded before further steps (states in which container values, flags and the solver's last point
+    disagree unless every row really records what was in the model)."""
+    a, b = rng.randrange(spec["n"]), rng.randrange(spec["n"])
+    st = lambda k=1: ["step", k, rng.random() < 0.7, False]
+    templates = [
+        [st(2), ["disable", "vary", a], st(1), ["tag", "frozen"], st(1), ["enable", "vary", a], ["reload", 0], st(1)],
+        [st(1), ["reload", 0], ["disable", "vary", a], st(2), ["reload", 1], st(1)],
+        [["disable", "vary", a], st(2), ["enable", "vary", a], ["disable", "vary", b], st(2), ["reload", 1], st(1), ["reload", 3], st(1)],
+        [st(1), ["disable", "vary", a], ["reload", 0], st(1), ["enable", "vary", a], ["reload", 1], ["disable", "vary", b], st(1)],
+        [st(2), ["disable", "target", a], st(1), ["reload", 1], st(1), ["enable", "target", a], ["reload", 3], st(1)],
+    ]
+    return rng.choice(templates)
+
+
 def gen_calls(rng, spec):
     calls = []
+    if rng.random() < 0.3:
+        calls = directed_calls(rng, spec)
     for _ in range(rng.randrange(3, 11)):
         x = rng.random()
         if x < 0.4:
@@ -145,6 +163,13 @@ def check_problem(spec, calls, counters, violations):
     N = len(V)
     njac = int(np.sum(np.array(lg["alpha"]) >= 0))
     wt = np.array([t.weight for t in S.targets], dtype=float)
+    # (the row visited before row i: deterministic, different from i, favouring rows with other flags)
+    far = []
+    for i in range(N):
+        others = [j for j in range(N) if j != i]
+        diff = [j for j in others if str(lg["vary_active"][j]) != str(lg["vary_active"][i])]
+        pool = diff or others
+        far.append(pool[(7 * i + 3) % len(pool)] if pool else i)
     for i in range(N):
         if issues:
             break
@@ -161,8 +186,10 @@ def check_problem(spec, calls, counters, violations):
         if not math.isclose(pen, float(lg["penalty"][i]), rel_tol=1e-12, abs_tol=1e-300):
             issues.append("row %d records penalty %r, an independent evaluation gives %r" % (i, float(lg["penalty"][i]), pen))
             break
-        # reload(i) puts knobs and flags back
+        # reload(i) puts knobs and flags back, from wherever the model is: go to another row first
         try:
+            if N > 1:
+                opt.reload(iteration=far[i])
             opt.reload(iteration=i)
         except Exception as exc:
             issues.append("reload(%d) raised %s: %s" % (i, type(exc).__name__, str(exc)[:100]))
